@@ -14,8 +14,10 @@ claims={
  "C14":("One harness per variable/key-file decoder entry point on a fully symbolic byte string: on every path no panic, no log.Fatal/os.Exit, no allocation above 8*len+8192, termination within the unwinding bounds; violations are replayed natively (panic / exit status / measured allocation).","2 C14"),
  "C17":("GUID conversions decided for all 2^128 values in one symbolic run (Format, both parse directions, byte forms, in-structure layout, equality).","2 C17"),
  "C18":("Boot-order decoding decided for all 65 536 values of every entry symbolically: names are Boot + four upper-case hex digits.","2 C18"),
+ "C19":("Read-only operations on a parsed symbolic image, a database and a signed-update value are called twice in both orders: results are equal on every path, and the executor's write log shows no store into the pre-existing object graph (sufficient condition for race-free concurrent use).","2 C19"),
 }
 partial={
+ "C19":" Real goroutine schedules are not explored; Verify is not included.",
  "C03":" Re-parse digest equality, embedded-digest and verify-after-sign parts of the statement are not decided by this check.",
  "C01":" The per-position flip statement is covered only through equality with the specification's stream.",
  "C14":" PEM key/certificate readers are not covered (encoding/pem, crypto/x509 not interpreted); the static enumeration of exit call sites is not yet part of this check.",
